@@ -42,22 +42,7 @@ def scenarios(seed, tier):
         else:
             s = gen.gen_portfolio(r2, tmax=12, tz_prob=0.1, allow_periodic=False, allow_freq=False)
         if r2.random() < 0.25:
-            # nothing is active in the first part of the horizon (first interval(s) without any asset)
-            T = s['grid']['T_nominal']
-            k0 = r2.randint(max(1, T // 3), max(1, (2 * T) // 3))
-            st = gen.P(s['grid'], k0)
-            if gen.ok_local(st, s['grid']):
-                for a in s['assets']:
-                    tgt = a['base']['args'] if a['type'] == 'ScaledAsset' else a['args']
-                    if a['type'] in ('OrderBook', 'StructuredAsset'):
-                        continue
-                    cur = tgt.get('start')
-                    if cur is None or pd.Timestamp(cur['$dt']) < st:
-                        tgt['start'] = gen.dtv(st)
-                    if 'end' in tgt and pd.Timestamp(tgt['end']['$dt']) <= pd.Timestamp(tgt['start']['$dt']):
-                        tgt.pop('end')
-                s['assets'] = [a for a in s['assets'] if a['type'] not in ('OrderBook', 'StructuredAsset')] or s['assets']
-                s['late_start'] = k0
+            gen.make_late_start(s, r2)
         s['stream'] = stream
         s['parts'] = r2.choice([2, 3, 3, 4, 5])
         s['odd'] = r2.random() < 0.4      # interval not aligned with the horizon
